@@ -62,6 +62,8 @@ def run(ctx):
         ctx.rule(r, t)
     from .. import hashing as H_
     H_.layout(ctx, "R5")
+    ctx.rule("R6", "a signature is accepted exactly when a key can be recovered from it: recover fails only where secp256k1 fails (recovery id, compact parse, recovery) and verify adds no further condition")
+    acceptance_tables(ctx, prog, "R6")
     for name, arg, leaf in [("sign", "contract", "sign_hash"), ("verify", "signed.contract", "verify_hash"), ("recover", "signed.contract", "recover_hash")]:
         f = prog.fn(S + "contract::" + name)
         if not ctx.anchor("R1", "fn contract::" + name, f):
@@ -122,3 +124,49 @@ def run(ctx):
         ctx.ob("R3", "accept-only-after-verify-and-check_contract", ok, "%s:%d" % (f.file, f.line), "Ok under %s" % oks, f)
     # ---- R4 ---------------------------------------------------------------
     C12.run(_Only(ctx, "R3", "R4"))
+
+
+def acceptance_tables(ctx, prog, rid):
+    rf = prog.fn(S + "recover_from_message")
+    RID = r"<secp256k1::ecdsa::recovery::RecoveryId as std::convert::TryFrom<i32>>::try_from\(int::from\(signature\.1\)\)"
+    if ctx.anchor(rid, "fn recover_from_message", rf):
+        ctx.saw(rf)
+        rows = M.return_table(prog, rf)
+        kinds = []
+        for _, v, at in rows:
+            last = at[-1] if at else ""
+            if v == "<propagate error>" and re.match(r"^err\(%s\)$" % RID, last):
+                kinds.append("bad-recovery-id")
+            elif v == "<propagate error>" and re.match(r"^err\(secp256k1::ecdsa::recovery::RecoverableSignature::from_compact\(signature\.0, ", last):
+                kinds.append("bad-compact-signature")
+            elif v == "<propagate error>" and re.match(r"^err\(secp256k1::ecdsa::recovery::<impl secp256k1::Secp256k1<C>>::recover_ecdsa\(", last):
+                kinds.append("unrecoverable")
+            elif re.match(r"^Result::Ok\{secp256k1::ecdsa::recovery::<impl secp256k1::Secp256k1<C>>::recover_ecdsa\(.*\)\?\}$", v) and len(at) == 3:
+                kinds.append("ok=recovered-key")
+            else:
+                kinds.append("OTHER:%s under %s" % (v[:50], last[:70]))
+        ctx.ob(rid, "recover_from_message:fails-exactly-where-secp256k1-fails", sorted(kinds) == sorted(["bad-recovery-id", "bad-compact-signature", "unrecoverable", "ok=recovered-key"]),
+               "%s:%d" % (rf.file, rf.line), "returns: %s" % kinds, rf)
+    for name, want in [("verify_hash", None),
+                       ("recover_hash", r"^essential_sign::recover_from_message\(secp256k1::Message::from_digest\(hash\), signature\)$"),
+                       ("contract::verify", r"^essential_sign::verify_hash\(essential_hash::content_addr\(signed\.contract\)\.0, signed\.signature\)$"),
+                       ("contract::recover", r"^essential_sign::recover_hash\(essential_hash::content_addr\(signed\.contract\)\.0, signed\.signature\)$")]:
+        f = prog.fn(S + name)
+        if not ctx.anchor(rid, "fn " + name, f):
+            continue
+        ctx.saw(f)
+        rows = [(v, at) for _, v, at in M.return_table(prog, f)]
+        if want is not None:
+            ok = len(rows) == 1 and re.match(want, rows[0][0]) is not None and not rows[0][1]
+        else:
+            R = "essential_sign::recover_from_message(secp256k1::Message::from_digest(hash), signature)"
+            ok = sorted(rows) == sorted([("Result::Ok{tuple{}}", ["ok(%s)" % R]), ("<propagate error>", ["err(%s)" % R])])
+        ctx.ob(rid, "%s:adds-no-condition" % name, ok, "%s:%d" % (f.file, f.line), "returns: %s" % [(v[:90], [a[:60] for a in at]) for v, at in rows], f)
+    f = prog.fn("essential_check::predicate::check_signed_contract")
+    if ctx.anchor(rid, "fn check_signed_contract", f):
+        ctx.saw(f)
+        rows = sorted((v, at) for _, v, at in M.return_table(prog, f))
+        V = "essential_sign::contract::verify(signed_contract)"
+        K = "essential_check::predicate::check_contract(signed_contract.contract)"
+        want = sorted([("<propagate error>", ["err(%s)" % V]), ("Result::Ok{tuple{}}", ["ok(%s)" % V, "ok(%s)" % K]), ("<propagate error>", ["ok(%s)" % V, "err(%s)" % K])])
+        ctx.ob(rid, "check_signed_contract:accepts-iff-verify-and-check_contract-succeed", rows == want, "%s:%d" % (f.file, f.line), "returns: %s" % [(v[:30], [a[:50] for a in at]) for v, at in rows], f)
